@@ -23,7 +23,7 @@ PID = "C09"
 # =================================================================================================
 # types: ('B', name) | ('L', t) | ('G', name)
 Z, T, K, W, B = ('B', 'Zahl'), ('B', 'Text'), ('B', 'Kommazahl'), ('B', 'Wahrheitswert'), ('B', 'Buchstabe')
-KENNUNG, PUNKT = ('B', 'Kennung'), ('B', 'Punkt')
+KENNUNG, PUNKT, KREIS = ('B', 'Kennung'), ('B', 'Punkt'), ('B', 'Kreis')
 VOID = ('B', 'nichts')
 
 
@@ -35,8 +35,27 @@ def G(n):
     return ('G', n)
 
 
+def IV(t):
+    """instantiation of the generic Kombination Vektor2 (one type parameter T, fields x and y of type T)"""
+    return ('I', 'Vektor2', t)
+
+
 def is_generic_type(t):
-    return t[0] == 'G' or (t[0] == 'L' and is_generic_type(t[1]))
+    return t[0] == 'G' or (t[0] == 'L' and is_generic_type(t[1])) or (t[0] == 'I' and is_generic_type(t[2]))
+
+
+def gname_of(t):
+    return t[1] if t[0] == 'G' else gname_of(t[1]) if t[0] == 'L' else gname_of(t[2]) if t[0] == 'I' else None
+
+
+def subst_type(t, env):
+    if t[0] == 'G':
+        return env[t[1]]
+    if t[0] == 'L':
+        return ('L', subst_type(t[1], env))
+    if t[0] == 'I':
+        return ('I', t[1], subst_type(t[2], env))
+    return t
 
 
 PARAM_TEXT = {  # (value, Referenz, Liste, Listen Referenz)
@@ -48,6 +67,8 @@ PARAM_TEXT = {  # (value, Referenz, Liste, Listen Referenz)
 
 def type_text(t, ref, written=None):
     """DDP spelling of a parameter type; `written` = name of a type alias to spell it with (Nummer for Zahl)"""
+    if t[0] == 'I':
+        return type_text(t[2], False) + "-" + t[1] + (" Referenz" if ref else "")
     lst = t[0] == 'L'
     base = t[1] if lst else t
     name = written or base[1]
@@ -61,6 +82,8 @@ def ty_model(t, ids):
     """type in the syntax of the model driver"""
     if t[0] == 'L':
         return "L(%s)" % ty_model(t[1], ids)
+    if t[0] == 'I':
+        return "I%d(%s)" % (ids.setdefault(('I', t[1]), len(ids) + 1), ty_model(t[2], ids))
     if t[0] == 'G':
         return "G%d" % ids.setdefault(('G', t[1]), len(ids) + 1)
     return "B%d" % ids.setdefault(('B', t[1]), len(ids) + 1)
@@ -71,7 +94,9 @@ VARS = {
     'vz': (Z, "7", "7"), 'vy': (Z, "9", "9"), 'vt': (T, '"tt"', "tt"), 'vu': (T, '"uu"', "uu"), 'vk': (K, "1,5", "1,5"),
     'vw': (W, "wahr", "wahr"), 'vb': (B, "'c'", "c"), 'vzl': (L(Z), None, None), 'vtl': (L(T), None, None), 'vbl': (L(B), None, None),
     'vn': (Z, "4", "4"), 'vd': (KENNUNG, None, None), 'vp': (PUNKT, None, None),
+    'vvz': (IV(Z), None, None), 'vvt': (IV(T), None, None),
 }
+GSTRUCT_VARS = ('vvz', 'vvt')
 VAR_DECLS = """Die Zahl vz ist 7.
 Die Zahl vy ist 9.
 Der Text vt ist "tt".
@@ -104,6 +129,7 @@ FORMS = {
     'vzl': (L(Z), L(Z), False, None), '(vzl)': (L(Z), L(Z), False, None), 'vtl': (L(T), L(T), False, None), 'vbl': (L(B), L(B), False, None),
     'vd': (KENNUNG, KENNUNG, False, None), '(vd)': (KENNUNG, KENNUNG, False, None), '(3 als Kennung)': (KENNUNG, None, False, None),
     'vp': (PUNKT, PUNKT, False, None), '(vp)': (PUNKT, PUNKT, False, None),
+    'vvz': (IV(Z), IV(Z), False, None), '(vvz)': (IV(Z), IV(Z), False, None), 'vvt': (IV(T), IV(T), False, None), '(vvt)': (IV(T), IV(T), False, None),
 }
 FORMS_BY_TYPE = {}
 for _f, _i in FORMS.items():
@@ -176,6 +202,7 @@ class Func:
         self.name, self.params, self.raw_aliases = name, params, aliases   # params: [(name, type, ref, written)]
         self.generic, self.ret, self.public, self.module, self.struct = generic, ret, public, module, struct
         self.tag = 0
+        self.gstruct = False
         self.numeric_body = None     # name of a parameter of type T that the body adds 1 to: instantiable only for Zahl / Kommazahl
 
     def ptype(self, n):
@@ -268,10 +295,25 @@ def gen_wide_population(rng):
     return funcs, False
 
 
-def gen_population(rng, want_struct, clean):
-    if not want_struct and rng.random() < 0.1:
+def gen_population(rng, want_struct, clean, want_g=False):
+    if not want_struct and not want_g and rng.random() < 0.1:
         return gen_wide_population(rng)
     funcs = []
+    if want_g:
+        # the same one-placeholder pattern for an instantiated generic Kombination, concretely and generically
+        w = rng.choice(WORDS)
+        pat = rng.choice(["%s <a>", "%s mit <a>", "%s <a> %s" % ("%s", rng.choice(WORDS))]) % w
+        conc_t = rng.choice([Z, T])
+        variants = [("k", IV(conc_t), False, False), ("g", IV(G('T')), False, True)]
+        if rng.random() < 0.4:
+            variants.append(("r", IV(conc_t), True, False))
+        if rng.random() < 0.3:
+            variants.append(("h", IV(G('T')), True, True))
+        if rng.random() < 0.3:
+            variants.append(("o", IV(T if conc_t == Z else Z), False, False))
+        rng.shuffle(variants)
+        for nm, t, ref, gen in variants:
+            funcs.append(Func("vek" + nm, [('a', t, ref, None)], [pat], generic=gen))
     n_fun = rng.randint(5, 11)
     skels = []          # shared skeleton pool: (items, nslots)
     fid = 0
@@ -313,9 +355,9 @@ def gen_population(rng, want_struct, clean):
             ref = rng.random() < 0.3
             if generic and (i == 0 or rng.random() < 0.4):
                 gname = rng.choice(['T', 'T', 'R'])
-                t = rng.choice([G(gname), G(gname), L(G(gname))])
+                t = rng.choice([G(gname), G(gname), L(G(gname))] + ([IV(G(gname))] * 2 if want_g else []))
             else:
-                t = rng.choice(CONCRETE + ([PUNKT] if want_struct else []))
+                t = rng.choice(CONCRETE + ([PUNKT] if want_struct else []) + ([IV(Z), IV(T)] if want_g else []))
             written = 'Nummer' if (t in (Z, L(Z)) and rng.random() < 0.15) else None
             params.append((pn, t, ref, written))
         if generic and not any(is_generic_type(p[1]) for p in params):
@@ -356,6 +398,10 @@ def gen_population(rng, want_struct, clean):
         if generic and direct and rng.random() < 0.35:
             f.numeric_body = direct[0][0]
         funcs.append(f)
+    if want_g:
+        gs = Func("Vektor2", [('x', G('T'), False, None), ('y', G('T'), False, None)], ["vek <x> <y>"], generic=True, ret='Vektor2', struct=True)
+        gs.gstruct = True
+        funcs.append(gs)
     if want_struct:
         st = Func("Punkt", [('x', Z, False, None), ('y', Z, False, None)], [], ret='Punkt', struct=True)
         w = rng.choice(WORDS)
@@ -367,7 +413,7 @@ def gen_population(rng, want_struct, clean):
         for f in funcs:
             if f.struct or f.generic:
                 continue
-            if any(p[3] or p[1] in (KENNUNG, PUNKT, L(KENNUNG)) for p in f.params):
+            if any(p[3] or p[1] in (KENNUNG, PUNKT, L(KENNUNG)) or p[1][0] == 'I' for p in f.params):
                 continue
             if rng.random() < 0.4:
                 f.module = 'mod'
@@ -463,6 +509,9 @@ def aus_funcs():
 
 
 def render_func(f, backend):
+    if f.struct and f.gstruct:
+        return "Wir nennen die generische Kombination aus\n\tdem T x,\n\tdem T y,\neinen Vektor2, und erstellen sie so:\n" + \
+               " oder\n".join('\t"%s"' % a for a in f.raw_kept) + "\n"
     if f.struct:
         lines = ["Wir nennen die Kombination aus", "\tder Zahl x mit Standardwert 0,", "\tder Zahl y mit Standardwert 0,",
                  "einen Punkt, und erstellen sie so:"]
@@ -517,8 +566,10 @@ def render_program(funcs, use_mod, calls, backend):
         if f.struct:
             main.append(render_func(f, backend))
     main.append(VAR_DECLS)
-    if any(f.struct for f in funcs):
-        st = [f for f in funcs if f.struct][0]
+    if any(f.gstruct for f in funcs):
+        main.append('Der Zahl-Vektor2 vvz ist vek 1 2.\nDer Text-Vektor2 vvt ist vek "a" "b".')
+    if any(f.struct and not f.gstruct for f in funcs):
+        st = [f for f in funcs if f.struct and not f.gstruct][0]
         zero = [a for a in st.aliases if not any(t[0] == 'P' for t in a.pat)]
         if zero:
             main.append("Der Punkt vp ist %s." % zero[0].text)
@@ -550,6 +601,7 @@ class Spec:
     def __init__(self, aliases, has_struct):
         self.aliases = aliases
         self.has_struct = has_struct
+        self.has_gstruct = any(a.fn.gstruct for a in aliases)
 
     # ---- argument units ----
     def unit_end(self, toks, i):
@@ -594,7 +646,7 @@ class Spec:
             if c == 'BOOL':
                 return (W, None, False)
             if c == 'IDENT':
-                if s in VARS and (s != 'vp' or self.has_struct):
+                if s in VARS and (s != 'vp' or self.has_struct) and (s not in GSTRUCT_VARS or self.has_gstruct):
                     return (VARS[s][0], VARS[s][0], False)
                 if getattr(self, 'void_unknown', False):
                     return (VOID, VOID, False)  # how the implementation sees an undeclared name (it is diagnosed later)
@@ -643,6 +695,8 @@ class Spec:
             return True
         if par[0] == 'L':
             return arg is not None and arg[0] == 'L' and Spec.unify_types(par[1], arg[1], env)
+        if par[0] == 'I':
+            return arg is not None and arg[0] == 'I' and arg[1] == par[1] and Spec.unify_types(par[2], arg[2], env)
         return par == arg
 
     def unify(self, par, arg, env):
@@ -722,7 +776,8 @@ class Spec:
 def gen_calls(rng, aliases, n, clean, has_struct):
     vis = visible(aliases)
     calls = []
-    targets = [a for a in vis if a.fn.module != 'aus']
+    targets = [a for a in vis if a.fn.module != 'aus' and not a.fn.gstruct]
+    has_g = any(a.fn.gstruct for a in vis)
     if not targets:
         return calls
     for _ in range(n):
@@ -740,13 +795,14 @@ def gen_calls(rng, aliases, n, clean, has_struct):
             want = p[1]
             # concrete type for a generic parameter
             if is_generic_type(want):
-                g = want[1] if want[0] == 'G' else want[1][1]
+                g = gname_of(want)
                 if g not in env:
                     under_list = any(q[1] == L(G(g)) for q in a.fn.params)
-                    env[g] = rng.choice([Z, T, B] if under_list else [Z, T, K, B, W, L(Z), L(T)])
+                    in_inst = any(q[1] == IV(G(g)) for q in a.fn.params)
+                    env[g] = rng.choice([Z, T] if in_inst else [Z, T, B] if under_list else [Z, T, K, B, W, L(Z), L(T)])
                     if a.fn.numeric_body and a.fn.ptype(a.fn.numeric_body)[1] == G(g) and (clean or rng.random() < 0.5):
                         env[g] = Z if under_list else rng.choice([Z, K])
-                want = env[g] if want[0] == 'G' else L(env[g])
+                want = subst_type(want, env)
                 if want[0] == 'L' and want[1][0] == 'L':
                     want = want[1]
             mismatch = (not clean) and rng.random() < 0.12
@@ -754,6 +810,8 @@ def gen_calls(rng, aliases, n, clean, has_struct):
                 want = rng.choice([x for x in CONCRETE if x != want])
             pool = FORMS_BY_TYPE.get(want, [])
             if want == PUNKT and not has_struct:
+                pool = []
+            if want[0] == 'I' and not has_g:
                 pool = []
             if p[2] and not mismatch and (clean or rng.random() < 0.85):
                 pool = [f for f in pool if FORMS[f][1] is not None]
@@ -868,7 +926,7 @@ def make_program(rng, idx, clean, backend, ncalls):
     p = Prog()
     p.idx, p.clean, p.backend = idx, clean, backend
     p.has_struct = rng.random() < 0.3
-    funcs, p.use_mod = gen_population(rng, p.has_struct, clean)
+    funcs, p.use_mod = gen_population(rng, p.has_struct, clean, want_g=rng.random() < 0.25)
     if backend:
         funcs = aus_funcs() + funcs
     p.aliases = build_aliases(funcs, p.use_mod)
@@ -891,17 +949,17 @@ def make_program(rng, idx, clean, backend, ncalls):
 
 
 def ty_json(t):
-    return list(t) if t[0] != 'L' else ['L', ty_json(t[1])]
+    return ['L', ty_json(t[1])] if t[0] == 'L' else ['I', t[1], ty_json(t[2])] if t[0] == 'I' else list(t)
 
 
 def ty_unjson(t):
-    return ('L', ty_unjson(t[1])) if t[0] == 'L' else (t[0], t[1])
+    return ('L', ty_unjson(t[1])) if t[0] == 'L' else ('I', t[1], ty_unjson(t[2])) if t[0] == 'I' else (t[0], t[1])
 
 
 def prog_to_json(p):
     return dict(backend=getattr(p, 'backend', False), use_mod=p.use_mod, calls=p.calls,
                 funcs=[dict(name=f.name, params=[[q[0], ty_json(q[1]), q[2], q[3]] for q in f.params], aliases=list(getattr(f, 'raw_kept', f.raw_aliases)),
-                            generic=f.generic, ret=f.ret, public=f.public, module=f.module, struct=f.struct, numeric_body=f.numeric_body) for f in p.funcs])
+                            generic=f.generic, ret=f.ret, public=f.public, module=f.module, struct=f.struct, numeric_body=f.numeric_body, gstruct=f.gstruct) for f in p.funcs])
 
 
 def prog_from_json(j, idx):
@@ -912,6 +970,7 @@ def prog_from_json(j, idx):
                     public=f["public"], module=f["module"], struct=f["struct"]) for f in j["funcs"]]
     for f, jf in zip(p.funcs, j["funcs"]):
         f.numeric_body = jf.get("numeric_body")
+        f.gstruct = bool(jf.get("gstruct"))
     p.aliases = build_aliases(p.funcs, p.use_mod)
     p.has_struct = any(f.struct for f in p.funcs)
     p.calls = list(j["calls"])
@@ -1191,7 +1250,7 @@ def reduced_replay(p, k, i, key):
         keep = {id(a.fn) for a in (r or {}).get('matching', [])} if r else set()
         q = Prog()
         q.idx, q.clean, q.backend = -1 - p.idx, p.clean, False
-        q.funcs = [f for f in p.funcs if id(f) in keep or (f.struct and 'vp' in p.calls[k])]
+        q.funcs = [f for f in p.funcs if id(f) in keep or (f.struct and not f.gstruct and 'vp' in p.calls[k]) or (f.gstruct and any(v in p.calls[k] for v in GSTRUCT_VARS))]
         if not q.funcs:
             return None
         q.use_mod = any(f.module == 'mod' for f in q.funcs)
@@ -1456,7 +1515,7 @@ def alias_leg(ck, b, tt, callx, model, root, progs):
         for f in p.funcs:
             if f.struct:
                 for q in f.params:
-                    type_names[(fn_key(f), q[0])] = "Zahl"
+                    type_names[(fn_key(f), q[0])] = "T" if f.gstruct else "Zahl"
         stats['programs'] += 1
         # a clean program must be accepted outright: otherwise the generator, not the compiler, is at fault
         check_decls(ck, p, pr, alias_toks, stats)
@@ -1468,6 +1527,8 @@ def alias_leg(ck, b, tt, callx, model, root, progs):
         for d in pr.get("diags") or []:
             if d["level"] == 2:
                 errs_by_line.setdefault(d["line"], []).append((d["code"], d["msg"][:80]))
+        if p.call_lines and any(l < p.call_lines[0] for l in errs_by_line):
+            stats['programs_with_declaration_errors'] = stats.get('programs_with_declaration_errors', 0) + 1
         for k, text in enumerate(p.calls):
             gt = [t for t in scans[k] if t["t"] != 1]
             st = spec_tokens(text + ".")
@@ -1537,6 +1598,7 @@ OPERAND_FORMS = {   # type -> [(text, assignable)]
     K: [("vk", True), ("2,5", False)],
     B: [("vb", True), ("'x'", False)],
     PUNKT: [("vp", True), ("(vp)", True), ("(punkt 1 2)", False)],
+    KREIS: [("vq", True), ("(vq)", True), ("(kreis 3)", False)],
     KENNUNG: [("vd", True), ("(vd)", True)],
     L(Z): [("vzl", True)],
 }
@@ -1577,12 +1639,26 @@ def gen_overload_program(rng, idx):
     ops = rng.sample(OPERATORS, rng.randint(1, 3))
     decls = []
     oid = 0
-    pool = [Z, T, K, B, PUNKT, KENNUNG, L(Z)]
+    pool = [Z, T, K, B, PUNKT, KREIS, KENNUNG, L(Z)]
     for (op, kind, _) in ops:
         n = rng.randint(2, 6)
         arity = 2 if kind == "binary" else 1
         made = []
         tries = 0
+        if kind == "binary" and rng.random() < 0.6:
+            # several generic overloads of one operator that share a type-parameter name: each candidate must be
+            # unified from scratch
+            s1, s2 = rng.sample([PUNKT, KREIS], 2)
+            pair = rng.choice([
+                [[G('T'), Z], [G('R'), G('T')]],
+                [[G('T'), s1], [s1, G('T')]],
+                [[G('T'), T], [G('R'), G('T')]],
+                [[s1, G('T')], [G('T'), G('R')]],
+                [[G('T'), L(Z)], [G('T'), s2], [s1, G('T')]],
+            ])
+            for tys in pair:
+                oid += 1
+                made.append(ODecl(oid, op, [("ab"[i], t, False) for i, t in enumerate(tys)], True, rng.choice([Z, T])))
         while len(made) < n and tries < 40:
             tries += 1
             generic = rng.random() < 0.25
@@ -1594,7 +1670,8 @@ def gen_overload_program(rng, idx):
                     if is_generic_type(t) != generic:
                         t = rng.choice(pool)
                 elif generic and (i == 0 or rng.random() < 0.5):
-                    t = rng.choice([G('T'), G('T'), L(G('T'))])
+                    gn = rng.choice(['T', 'T', 'R'])
+                    t = rng.choice([G(gn), G(gn), L(G(gn))])
                 else:
                     t = rng.choice(pool)
                 params.append(("ab"[i], t, rng.random() < 0.35))
@@ -1623,14 +1700,15 @@ def gen_overload_program(rng, idx):
             for q in d.params:
                 t = q[1]
                 if is_generic_type(t):
-                    if 'T' not in env:
-                        env['T'] = rng.choice([PUNKT, PUNKT, Z, T]) if t[0] == 'G' else Z
-                    t = env['T'] if t[0] == 'G' else L(env['T'])
+                    gn = gname_of(t)
+                    if gn not in env:
+                        env[gn] = rng.choice([PUNKT, KREIS, PUNKT, KREIS, Z, T]) if t[0] == 'G' else Z
+                    t = subst_type(t, env)
                 if t not in OPERAND_FORMS or rng.random() < 0.1:
-                    t = rng.choice([Z, T, K, B, PUNKT])
+                    t = rng.choice([Z, T, K, B, PUNKT, KREIS])
                 tys.append(t)
         else:
-            tys = [rng.choice([Z, T, K, B, PUNKT, KENNUNG]) for _ in range(2 if kind == "binary" else 1)]
+            tys = [rng.choice([Z, T, K, B, PUNKT, KREIS, PUNKT, KREIS, KENNUNG]) for _ in range(2 if kind == "binary" else 1)]
         forms = [rng.choice(OPERAND_FORMS[t]) for t in tys]
         if kind == "unary" and op == "unäres minus" and forms[0][0][0].isdigit():
             forms[0] = OPERAND_FORMS[tys[0]][0]
@@ -1648,6 +1726,10 @@ def gen_overload_program(rng, idx):
 	der Zahl y mit Standardwert 0,
 einen Punkt, und erstellen sie so:
 	"punkt <x> <y>"
+""", """Wir nennen die Kombination aus
+	der Zahl r mit Standardwert 0,
+einen Kreis, und erstellen sie so:
+	"kreis <r>"
 """]
     for d in decls:
         # declaration order of the parameters = operand order (operators are positional)
@@ -1659,7 +1741,7 @@ einen Punkt, und erstellen sie so:
             head += " mit den Parametern %s und %s vom Typ %s und %s," % (ps[0][0], ps[1][0], type_text(ps[0][1], ps[0][2]), type_text(ps[1][1], ps[1][2]))
         head += " gibt %s zurück, macht:\n\tGib %s zurück.\nUnd überlädt den \"%s\" Operator.\n" % (RET_TEXT[d.ret], RET_VALUE[d.ret], d.op)
         out.append(head)
-    out.append(VAR_DECLS + "Der Punkt vp ist punkt 1 2.\n")
+    out.append(VAR_DECLS + "Der Punkt vp ist punkt 1 2.\nDer Kreis vq ist kreis 3.\n")
     text = "\n".join(out)
     n = text.count("\n")
     p.site_lines = []
@@ -1675,7 +1757,7 @@ def spec_overload(decls, st):
     """the property: exact operand types; Referenz only for assignables; generic overloads only for user-defined
     operand types; non-generic before generic, then more Referenz parameters; built-in otherwise"""
     fitting = []
-    user = any((t[1] if t[0] == 'L' else t) == PUNKT for t, _, _ in st["operands"])
+    user = any((t[1] if t[0] == 'L' else t) in (PUNKT, KREIS) for t, _, _ in st["operands"])
     for d in decls:
         if d.op != st["op"] or len(d.params) != len(st["operands"]):
             continue
@@ -1745,7 +1827,7 @@ def overload_leg(ck, b, callx, model, root, nprog):
                 cid = "p%d:%d" % (p.idx, k)
                 lines.append("OF %s %s ; %s ; %s ; " % (cid, ty_model(st["target"], tyids) if st["target"] else "-",
                                                        " ".join("%s:%d" % (ty_model(t, tyids), 1 if a else 0) for t, a, _ in st["operands"]),
-                                                       ty_model(PUNKT, tyids)[1:]))
+                                                       ty_model(PUNKT, tyids)[1:] + " " + ty_model(KREIS, tyids)[1:]))
                 io = [o for o in pr.get("ops") or [] if o["line"] == p.site_lines[k] and o["col"] == 2 and o["kind"] == st["kind"]]
                 todo.append(("S", p, k, io[0] if io else None, cid))
     mp = subprocess.run([model], input="\n".join(lines) + "\n", capture_output=True, text=True, timeout=900)
